@@ -44,6 +44,13 @@ type Holder struct {
 }
 
 type OnlyTop struct{ D Dog }
+
+// a member reached directly first (Holder.C), through an alias later
+type CAlias = Circle
+type ViaAlias struct {
+	A  CAlias
+	AS []CAlias
+}
 `
 
 // same package, another file: declarations that are not analysed themselves but are candidates
@@ -142,11 +149,41 @@ func TestGovcHarness_Unions(t *testing.T) {
 				}
 			}
 		}
-		for _, ty := range ana.Types {
-			st, ok := ty.(*Struct)
-			if !ok {
-				continue
+		// every struct node REACHABLE from the result (as a table value, a field, an element, a key, a member,
+		// an underlying type; through aliases or not), not only the table values
+		reach := map[Type]bool{}
+		var structs []*Struct
+		var walk func(n Type)
+		walk = func(n Type) {
+			if n == nil || reach[n] {
+				return
 			}
+			reach[n] = true
+			switch x := n.(type) {
+			case *Struct:
+				structs = append(structs, x)
+				for _, f := range x.Fields {
+					walk(f.Type)
+				}
+			case *Array:
+				walk(x.Elem)
+			case *Map:
+				walk(x.Key)
+				walk(x.Elem)
+			case *Pointer:
+				walk(x.Elem)
+			case *Named:
+				walk(x.Underlying)
+			case *Union:
+				for _, m := range x.Members {
+					walk(m)
+				}
+			}
+		}
+		for _, ty := range ana.Types {
+			walk(ty)
+		}
+		for _, st := range structs {
 			cases++
 			var want []string
 			for u, ms := range analysed {
